@@ -28,6 +28,9 @@ SCENARIOS = [
        ["float reads back unchanged", "declared float reads back unchanged"]),
     sc("VerifC16_AnyDeclaration", "C16 every kind against every declaration", "12 kinds incl. nil and typed nil pointer x 8 declarations",
        ["a declared item type is never changed by a store"]),
+    sc("VerifC16_ContainerFresh", "C16 containers are snapshots", "map[string]any{a: x} / []any{x, y} (x a symbolic bool) x undeclared/declared; source mutated after the store, first read mutated before the second",
+       ["object reads back with the content it was stored with", "a reader changing the container it was given does not change the stored object",
+        "array reads back with the content it was stored with", "a reader changing the container it was given does not change the stored array"]),
     sc("VerifC16_ValueCopy", "C16 *Value copy", "8 declarations", ["a *Value is copied verbatim"]),
     dict(name="C16.c instance isolation", entry="VerifC16c_Isolation", harness="root", K=60, reach=["built"],
          overrides={"github.com/olive-io/bpmn/v2/pkg/tracing.NewTracer": "verifNewTracer"},
